@@ -4,6 +4,7 @@ import re
 import common
 from common import cq_bytes, cq_list
 
+ALLOW_CLOCK = ["w_sub_cert_aia_contains_internal_names time.Now", "w_smime_aia_contains_internal_names time.Now"]
 THEOREMS = ["c10_schedule_independent", "c10_concurrent_equals_sequential", "c10_no_deadlock"]
 
 
@@ -24,12 +25,17 @@ def run(ctx):
     gd = common.gendir("C10")
     gw = (d["data"].get("entry_global_writes") or []) + (d["data"].get("lint_global_writes") or [])
     locks = d["data"].get("lock_ops") or []
+    clock = d["data"].get("lint_clock_reads") or []
     ops = [l.split(" ")[1] for l in locks]
     with open(os.path.join(gd, "Obl_C10_static.v"), "w") as f:
-        f.write("From ZL Require Import Base.Bytes Framework.Conc Props.C10.\nFrom Coq Require Import List Bool.\nImport ListNotations.\n")
+        f.write("From ZL Require Import Base.Bytes Base.BytesFacts Framework.Conc Props.C10.\nFrom Coq Require Import List Bool.\nImport ListNotations.\n")
         f.write("(* stores to package-level state reachable from Lint*Ex, the registry read API (Names, Sources, ByName, BySource, Lints, Filter, WriteJSON, ...) or any lint's constructor/Configure/CheckApplies/Execute *)\n")
         f.write("Definition entry_global_writes : list bytes := %s.\n" % cq_list([cq_bytes(x) for x in gw]))
         f.write("Lemma no_shared_writes : match entry_global_writes with nil => true | _ => false end = true.\nProof. vm_compute. reflexivity. Qed.\n")
+        f.write("(* reads of the clock, timers or scheduler state reachable from a lint (a step that reads them is not a function of the thread's private store, the hypothesis of c10_schedule_independent);\n   the allow-list is the one of C05: time.Now in the two AIA internal-name lints, used only as the date for util.HasValidTLD *)\n")
+        f.write("Definition clock_reads : list bytes := %s.\nDefinition allow_clock_reads : list bytes := %s.\n" % (
+            cq_list([cq_bytes(x) for x in clock]), cq_list([cq_bytes(x) for x in ALLOW_CLOCK])))
+        f.write("Lemma no_schedule_reads : forallb (fun s => mem s allow_clock_reads) clock_reads = true.\nProof. vm_compute. reflexivity. Qed.\n")
         f.write("(* every lock operation reachable from them, in source order *)\n")
         m = {"RLock": "RLock", "RUnlock": "RUnlock", "Lock": "WLock", "Unlock": "WUnlock"}
         f.write("Definition lock_ops : list lock_op := %s.\n" % cq_list([m.get(o, "WLock") for o in ops]))
@@ -37,7 +43,7 @@ def run(ctx):
         f.write("Theorem readers_never_block : forall o, read_mode o = true -> enabled o (fold_left (fun l o => lock_step o l) lock_ops (mkLock false 0)) = true.\n"
                 "Proof. exact (c10_no_deadlock lock_ops locks_read_mode). Qed.\n")
     ok, out = common.coqc(os.path.join(gd, "Obl_C10_static.v"))
-    ctx.oblige("Obl_C10_static: no store to package-level state is reachable from the lint entry points and the registry read API; every reachable lock operation is a read-mode one", ok, out[-1200:])
+    ctx.oblige("Obl_C10_static: no store to package-level state is reachable from the lint entry points and the registry read API; every reachable lock operation is a read-mode one; no lint reads the clock, a timer or the scheduler's state (except time.Now as the date argument of util.HasValidTLD in the two AIA internal-name lints)", ok, out[-1200:])
     mon = common.report_monitor_violations(ctx, d)
     ctx.oblige("dynamic: goroutines linting their own objects against shared registries while readers call Names/Sources/ByName/WriteJSON/Filter get the sequential results; no panic%s" % (
         "; no race report (-race build)" if race else ""), not mon and not race_report)
@@ -47,6 +53,10 @@ def run(ctx):
         for x in gw:
             ctx.violation("shared-write:" + x.split(" ")[-1], "a store to package-level state is reachable from the concurrent API: " + x,
                           {"theorem_or_correspondence": "Gen.Obl_C10_static.no_shared_writes"}, found_input=False)
+        for x in clock:
+            if x not in ALLOW_CLOCK:
+                ctx.violation("schedule-read:" + x.replace(" ", ":"), "a lint reads the clock, a timer or the scheduler's state, so what it reports can depend on when and beside whom its goroutine runs: " + x,
+                              {"theorem_or_correspondence": "Gen.Obl_C10_static.no_schedule_reads"}, found_input=False)
         for l in locks:
             if l.split(" ")[1] in ("Lock", "Unlock"):
                 ctx.violation("write-lock:" + l.split(" ")[0], "a write-mode lock operation is reachable from the concurrent read API: " + l,
